@@ -548,16 +548,17 @@ func (imm *ImmExp) Eval(env Env) (Exp, bool) {
 		// '$' でない場合は、マクロをチェックします
 		macroExp, ok := env.LookupMacro(identValue)
 		if ok {
-			// 自分自身 (または互い) を参照する EQU 定義は無限再帰になるため、展開の深さを制限して診断を出します
-			if macroEvalDepth >= maxMacroEvalDepth {
-				log.Printf("error: EQU '%s' is defined in terms of itself (expansion deeper than %d levels)", identValue, maxMacroEvalDepth)
+			// 自分自身 (または互い) を参照する EQU 定義は無限再帰 (分岐があれば指数的な展開) になるため、
+			// 現在展開中の名前を記録して循環を検出し、診断を出します
+			if macroExpanding[identValue] {
+				log.Printf("error: EQU '%s' is defined in terms of itself", identValue)
 				return imm, false
 			}
 			// マクロ定義を再帰的に評価します
 			// マクロ自体が評価されることを確認します
-			macroEvalDepth++
+			macroExpanding[identValue] = true
 			evalMacroExp, reduced := macroExp.Eval(env)
-			macroEvalDepth--
+			delete(macroExpanding, identValue)
 			return evalMacroExp, reduced // 評価されたマクロ式を返します
 		}
 		// マクロでも '$' でもない場合は、未解決の識別子 (ラベルなど) です
@@ -572,10 +573,8 @@ func (imm *ImmExp) Eval(env Env) (Exp, bool) {
 	}
 }
 
-// EQU 展開の入れ子の深さ (循環定義の検出用)
-var macroEvalDepth int
-
-const maxMacroEvalDepth = 256
+// 現在展開中の EQU 名 (循環定義の検出用)
+var macroExpanding = map[string]bool{}
 
 func (imm *ImmExp) TokenLiteral() string {
 	return imm.Factor.TokenLiteral()
